@@ -102,3 +102,9 @@ for cls, table, key in (('Derive', 'elementary_expressions', 'elementaryName'), 
                       'index_of_named_element': f"same(engine_item({LAST}, 2), self.id_manager.{table}.indices[self.{key}])",
                       'nitems': f"engine_nitems({LAST}) == 3",
                       'postorder': 'seq_eq(result[:len(result) - 1], self.child.get_signature())'})
+
+# The identifier of a node in the signature must be unique per live object (the engine memoises
+# decoded nodes by id and ignores a line whose id it already knows): A-ID, id(obj) is injective.
+contract(B + 'base_expressions.Expression.get_id', 'C01', self_class='Expression', label='Expression.get_id(body)', modifies=[],
+         ensures={'object_identity': 'result == id(self)'},
+         note='sufficient condition for uniqueness of node ids within a signature (sharing, copies)')
